@@ -124,6 +124,14 @@ UpdateNoiseBg(p, m) ==
     /\ UNCHANGED <<cfg, own, aclk, arr, cache, base, cnt>>
     /\ Log([name |-> "UpdateNoiseBg", p |-> p, m |-> m], <<>>)
 
+(* a request the library refuses (negative or fractional count; for arrays also a count not above the largest delay):
+   it raises and leaves no trace -- clocks, start flags, draw indices and carried background are what they were *)
+BadRequest(kind) ==
+    /\ (kind = "small" => (cfg.kind = "array" /\ D >= 1))
+    /\ out' = <<>>
+    /\ UNCHANGED <<cfg, own, aclk, bg, arr, cache, base, cnt>>
+    /\ Log([name |-> "BadRequest", kind |-> kind, n |-> IF kind = "small" THEN D ELSE -1], <<>>)
+
 Done == /\ EmitOn /\ Len(hist) = MaxOps
         /\ PrintT(ToJson([cfg |-> cfg, steps |-> hist]))
         /\ hist' = Append(hist, "done")
@@ -138,6 +146,7 @@ Next ==
     \/ ResetStart
     \/ \E a \in 1..3, p \in 1..2 : UpdateNoiseOwn(a, p, 3)
     \/ \E p \in 1..2 : UpdateNoiseBg(p, 2)
+    \/ \E kind \in {"negative", "fractional", "small"} : BadRequest(kind)
 
 Spec == Init /\ [][Next]_vars
 
@@ -186,6 +195,11 @@ CacheClearedAtStart == (cfg.kind = "array" /\ arr.start) => \A a \in Ants, p \in
 DefaultDelaysAreZero == cfg.omitted => \A a \in Ants : cfg.delays[a] = 0
 
 (* update_noise moves no clock *)
+(* a refused request leaves no trace *)
+RefusedLeavesNoTrace ==
+    [][(hist' # hist /\ hist'[Len(hist')].act.name = "BadRequest")
+          => (own' = own /\ aclk' = aclk /\ bg' = bg /\ arr' = arr /\ cache' = cache /\ cnt' = cnt)]_vars
+
 UpdateNoiseKeepsClock ==
     [][(\E a \in 1..3, p \in 1..2 : own'[a][p].rng # own[a][p].rng /\ own'[a][p].clock = own[a][p].clock)
           => (aclk' = aclk /\ arr' = arr)]_vars
